@@ -12,7 +12,7 @@ From Coq Require Import List Arith NArith Bool Lia String.
 From Breadlog Require Import Model.Peg Model.Text Model.Regex Model.Glue Model.Tables.
 From Breadlog Require Import Gen.Grammar.
 From Breadlog Require Import Proofs.PegFacts Proofs.TokenFacts Proofs.GlueFacts Proofs.RuleLemmas Proofs.GlueSpec
-     Proofs.StatementLemmas.
+     Proofs.StatementLemmas Proofs.ArgLemmas.
 Import ListNotations.
 Open Scope N_scope.
 
@@ -171,19 +171,16 @@ Proof. intros H. rewrite r_macro_name_unfold, run_rule. cbn [inner_atomicity]. r
 (* ------------------------------------------------------------------------------------------ *)
 (* the canonical file language                                                                 *)
 (* ------------------------------------------------------------------------------------------ *)
-Definition lay := (list N * list (cmt * list N))%type.
-Definition render_lay (l : lay) : list N := (fst l ++ render_groups (snd l))%list.
-Definition lay_ok (l : lay) (tail : list N) : Prop :=
-  forallb is_ws_char (fst l) = true /\ groups_ok (snd l) tail.
-
 Inductive item :=
 | IStmt (n : qname) (l : lay) (us : list munit)     (* name !( layout "message"   *)
+| IStmtA (n : qname) (a : sargs)                     (* name !( layout [target: "t",] [key-values;] "message" *)
 | IName (n : qname)                                  (* a name that starts no statement *)
 | IChar (c : N).                                     (* any other character *)
 
 Definition render_item (it : item) : list N :=
   match it with
   | IStmt n l us => (render_name n ++ 33 :: 40 :: render_lay l ++ 34 :: render_msg us ++ [34])%list
+  | IStmtA n a => (render_name n ++ 33 :: render_args a [])%list
   | IName n => render_name n
   | IChar c => [c]
   end.
@@ -211,6 +208,7 @@ Definition item_ok (it : item) (r : list (lay * item)) (fin : lay) : Prop :=
   let tail := render_items r fin in
   match it with
   | IStmt n l us => qname_ok n = true /\ lay_ok l (34 :: render_msg us ++ 34 :: tail)%list /\ forallb munit_ok us = true
+  | IStmtA n a => qname_ok n = true /\ args_ok a tail
   | IName n => qname_ok n = true /\ name_end tail /\ not_a_call r
   | IChar c => is_ws_char c = false /\ name_start_ok c = false /\ no_comment_ahead (c :: tail)
   end.
@@ -232,9 +230,16 @@ Definition stmt_node (n : qname) (l : lay) (us : list munit) (p : N) : ptree :=
     [Node "macro_name" p (p + blen nm) [];
      Node "macro_args" a0 e [Node "string_literal" q e [Node "string_value" (q + 1) (q + 1 + blen (render_msg us)) []]]].
 
+Definition stmtA_node (n : qname) (a : sargs) (p : N) : ptree :=
+  let nm := render_name n in
+  let a0 := p + blen nm + 1 in
+  Node "log_macro" p (args_end a a0)
+    [Node "macro_name" p (p + blen nm) []; Node "macro_args" a0 (args_end a a0) (args_kids a a0)].
+
 Definition item_nodes (it : item) (p : N) : list ptree :=
   match it with
   | IStmt n l us => [stmt_node n l us p]
+  | IStmtA n a => [stmtA_node n a p]
   | IName n => [Node "other_name" p (p + blen (render_name n)) []]
   | IChar _ => []
   end.
@@ -262,18 +267,19 @@ Proof. unfold qname_ok. intros H. apply andb_true_iff in H. tauto. Qed.
 
 Lemma blen_item_pos it : 1 <= blen (render_item it).
 Proof.
-  destruct it as [n l us|n|c]; cbn [render_item]; try rewrite render_name_cons; cbn [app blen];
+  destruct it as [n l us|n a|n|c]; cbn [render_item]; try rewrite render_name_cons; cbn [app blen];
     match goal with |- context [cplen ?c] => pose proof (cplen_pos c) end; lia.
 Qed.
 
 Lemma length_item_pos it : (1 <= List.length (render_item it))%nat.
 Proof.
-  destruct it as [n l us|n|c]; cbn [render_item]; try rewrite render_name_cons; cbn [app List.length]; lia.
+  destruct it as [n l us|n a|n|c]; cbn [render_item]; try rewrite render_name_cons; cbn [app List.length]; lia.
 Qed.
 
 Lemma item_code_ahead it r fin : item_ok it r fin -> code_ahead (render_item it ++ render_items r fin)%list.
 Proof.
-  destruct it as [n l us|n|c]; cbn [item_ok render_item].
+  destruct it as [n l us|n a|n|c]; cbn [item_ok render_item].
+  - intros (Hn & _). rewrite render_name_cons. cbn [app]. apply (name_start_not_layout _ (qname_start n Hn)).
   - intros (Hn & _). rewrite render_name_cons. cbn [app]. apply (name_start_not_layout _ (qname_start n Hn)).
   - intros (Hn & _). rewrite render_name_cons. cbn [app]. apply (name_start_not_layout _ (qname_start n Hn)).
   - intros (Hw & Hs & Hc). cbn [app]. split; [exact Hw|exact Hc].
@@ -388,7 +394,9 @@ Proof.
   - cbn [code_of]. rewrite str_miss by (cbn; discriminate). reflexivity.
   - destruct (N.eq_dec (match hd_error (render_item it1) with Some c => c | None => 0 end) 33) as [E|E].
     + (* the next code character is "!" : then the one after it is not "(" *)
-      destruct it1 as [n1 l1' us1|n1|c1].
+      destruct it1 as [n1 l1' us1|n1 a1|n1|c1].
+      * exfalso. destruct Hr as (_ & (Hn1 & _) & _). apply qname_start in Hn1. cbn [render_item] in E.
+        rewrite render_name_cons in E. cbn [app hd_error] in E. rewrite E in Hn1. vm_compute in Hn1. discriminate.
       * exfalso. destruct Hr as (_ & (Hn1 & _) & _). apply qname_start in Hn1. cbn [render_item] in E.
         rewrite render_name_cons in E. cbn [app hd_error] in E. rewrite E in Hn1. vm_compute in Hn1. discriminate.
       * exfalso. destruct Hr as (_ & (Hn1 & _) & _). apply qname_start in Hn1. cbn [render_item] in E.
@@ -414,13 +422,49 @@ Proof.
   rewrite (macro_name_q SK Atomic n _ p Hn Hend). cbn [emits negb andb pos]. reflexivity.
 Qed.
 
+Lemma stmtA_app n a tail :
+  (render_item (IStmtA n a) ++ tail)%list = (render_name n ++ 33 :: render_args a tail)%list.
+Proof. cbn [render_item]. rewrite <- app_assoc. cbn [app]. rewrite (render_args_app a tail). reflexivity. Qed.
+
+Lemma blen_stmtA n a : blen (render_item (IStmtA n a)) = blen (render_name n) + 1 + blen (render_args a []).
+Proof. cbn [render_item]. rewrite blen_app. cbn [blen cplen N.ltb N.compare Pos.compare Pos.compare_cont]. lia. Qed.
+
+Lemma log_macro_A n a rst p :
+  qname_ok n = true -> args_ok a rst ->
+  run Utab SK r_log_macro NonAtomic false (mkIn (render_name n ++ 33 :: render_args a rst)%list p)
+  = Ok (mkIn rst (p + blen (render_item (IStmtA n a)))) [stmtA_node n a p].
+Proof.
+  intros Hn Ha. unfold r_log_macro. rewrite run_rule. cbn [inner_atomicity]. rewrite run_seq.
+  rewrite (macro_name_q SK NonAtomic n _ p Hn (bang_name_end _)).
+  cbn [do_skip]. rewrite (skip_none _ _ (bang_ahead _)).
+  rewrite run_seq, run_str. cbn [Peg.rest strip_prefix N.eqb Pos.eqb pos do_skip].
+  set (a0 := p + blen (render_name n) + 1).
+  replace (p + blen (render_name n) + blen [33]) with a0
+    by (unfold a0; cbn [blen cplen N.ltb N.compare Pos.compare Pos.compare_cont]; lia).
+  assert (Hpa : code_ahead (render_args a rst)) by (unfold render_args; apply paren_ahead).
+  rewrite (skip_none _ _ Hpa). rewrite (macro_args_gen a rst a0 Ha).
+  cbn [emits negb andb app pos]. unfold stmtA_node. fold a0.
+  replace (p + blen (render_item (IStmtA n a))) with (args_end a a0); [reflexivity|].
+  rewrite blen_stmtA, blen_render_args. unfold args_end, a0. lia.
+Qed.
+
+Lemma item_stmtA n a r fin p :
+  item_ok (IStmtA n a) r fin ->
+  run Utab SK file_item NonAtomic false (mkIn (render_item (IStmtA n a) ++ render_items r fin)%list p)
+  = Ok (mkIn (render_items r fin) (p + blen (render_item (IStmtA n a)))) [stmtA_node n a p].
+Proof.
+  intros (Hn & Ha). unfold file_item. rewrite run_choice, stmtA_app.
+  rewrite (log_macro_A n a _ p Hn Ha). reflexivity.
+Qed.
+
 Lemma item_any it r fin p :
   item_ok it r fin -> items_ok r fin ->
   run Utab SK file_item NonAtomic false (mkIn (render_item it ++ render_items r fin)%list p)
   = Ok (mkIn (render_items r fin) (p + blen (render_item it))) (item_nodes it p).
 Proof.
-  intros Hit Hr. destruct it as [n l us|n|c]; cbn [item_nodes].
+  intros Hit Hr. destruct it as [n l us|n a|n|c]; cbn [item_nodes].
   - apply item_stmt; exact Hit.
+  - apply item_stmtA; exact Hit.
   - apply item_name; assumption.
   - apply item_char; exact Hit.
 Qed.
@@ -550,6 +594,234 @@ Proof.
     destruct (line_col_go pre_msg 1 1) as [l0 c0]. reflexivity.
 Qed.
 
+(* ---- statements with a target argument and / or key-values ---- *)
+Definition targ_text (o : option (targ * lay)) : list N :=
+  match o with Some (t, lt) => (render_targ t ++ render_lay lt)%list | None => [] end.
+Definition kv_text (o : option (kvcore * list (lay * kvcore) * lay * lay)) : list N :=
+  match o with Some (k1, more, lsemi, lafter) => render_kvs k1 more lsemi (render_lay lafter) | None => [] end.
+
+Lemma render_targpart_text o t : render_targpart o t = (targ_text o ++ t)%list.
+Proof. destruct o as [[tg lt]|]; cbn [render_targpart targ_text]; [rewrite <- app_assoc|]; reflexivity. Qed.
+Lemma render_kvpart_text o t : render_kvpart o t = (kv_text o ++ t)%list.
+Proof.
+  destruct o as [[[[k1 more] lsemi] lafter]|]; cbn [render_kvpart kv_text]; [|reflexivity].
+  unfold render_kvs. rewrite render_more_app, <- app_assoc. reflexivity.
+Qed.
+Lemma blen_targ_text o : blen (targ_text o) = targpart_len o.
+Proof. destruct o as [[tg lt]|]; cbn [targ_text targpart_len]; [rewrite blen_app|]; reflexivity. Qed.
+Lemma blen_kv_text o : blen (kv_text o) = kvpart_len o.
+Proof.
+  destruct o as [[[[k1 more] lsemi] lafter]|]; cbn [kv_text kvpart_len]; [|reflexivity].
+  unfold render_kvs. rewrite blen_app, blen_render_more. lia.
+Qed.
+
+(* the text a key node spans (pest keeps the layout after a one-character identifier) and the text a
+   value node spans (it keeps the layout up to the delimiter) *)
+Definition key_span_text (k : kvcore) : list N :=
+  (render_ident (k_key k) ++ match ics (k_key k) with [] => render_lay (k_l1 k) | _ => [] end)%list.
+Definition is_ref_kv (k : kvcore) : bool :=
+  text_eqb (key_span_text k) (p_ref_key TP) && match k_val k with Some _ => true | None => false end.
+
+(* the first key-value that holds a reference: (text before its value, text of the value's span) *)
+Fixpoint ref_more (more : list (lay * kvcore)) (pre : list N) : option (list N * list N) :=
+  match more with
+  | [] => None
+  | (ld, k) :: r =>
+      let pre1 := (pre ++ render_lay ld)%list in
+      match k_val k with
+      | Some (le, v, lv) =>
+          if text_eqb (key_span_text k) (p_ref_key TP)
+          then Some ((pre1 ++ render_ident (k_key k) ++ render_lay (k_l1 k) ++ 61 :: render_lay le)%list,
+                     (render_value v ++ render_lay lv)%list)
+          else ref_more r (pre1 ++ render_core k)
+      | None => ref_more r (pre1 ++ render_core k)
+      end
+  end.
+
+Lemma key_slice pre k rest :
+  str_slice (pre ++ render_core k ++ rest)%list (blen pre) (id_end (k_key k) (k_l1 k) (blen pre)) = Some (key_span_text k).
+Proof.
+  unfold render_core, key_span_text, id_end, render_ident. destruct (ics (k_key k)) as [|c cs] eqn:E; cbn [rep_end].
+  - replace (blen pre + cplen (i0 (k_key k)) + blen (render_lay (k_l1 k)))
+      with (blen pre + blen ([i0 (k_key k)] ++ render_lay (k_l1 k))) by (rewrite blen_app; cbn [blen]; lia).
+    rewrite <- (str_slice_mid pre ([i0 (k_key k)] ++ render_lay (k_l1 k))
+                  ((render_val (k_val k) ++ render_comma (k_comma k)) ++ rest)).
+    f_equal. cbn [app]. rewrite <- !app_assoc. reflexivity.
+  - rewrite app_nil_r.
+    replace (blen pre + cplen (i0 (k_key k)) + blen (c :: cs)) with (blen pre + blen (i0 (k_key k) :: c :: cs)) by (cbn [blen]; lia).
+    rewrite <- (str_slice_mid pre (i0 (k_key k) :: c :: cs)
+                  ((render_lay (k_l1 k) ++ render_val (k_val k) ++ render_comma (k_comma k)) ++ rest)).
+    f_equal. cbn [app]. rewrite <- !app_assoc. reflexivity.
+Qed.
+
+Definition ref_rel (code : list N) (spec : option (list N * list N)) (res : option ptree) : Prop :=
+  match spec, res with
+  | Some (prev, vt), Some vs =>
+      node_start vs = blen prev /\ node_end vs = blen prev + blen vt /\ exists post, code = (prev ++ vt ++ post)%list
+  | None, None => True
+  | _, _ => False
+  end.
+
+Lemma find_ref_more code lsemi tail : forall more pre,
+  code = (pre ++ render_more more lsemi tail)%list ->
+  exists res, find_ref_kv TP code (more_pairs more (blen pre)) = Done res /\ ref_rel code (ref_more more pre) res.
+Proof.
+  induction more as [|[ld k] r IH]; intros pre Hcode; cbn [ref_more more_pairs find_ref_kv].
+  - exists None. split; [reflexivity|exact I].
+  - assert (Hcode1 : code = ((pre ++ render_lay ld) ++ render_core k ++ render_more r lsemi tail)%list).
+    { rewrite Hcode. cbn [render_more]. rewrite <- !app_assoc. reflexivity. }
+    assert (Hcode2 : code = (((pre ++ render_lay ld) ++ render_core k) ++ render_more r lsemi tail)%list).
+    { rewrite Hcode1, <- !app_assoc. reflexivity. }
+    rewrite <- blen_app. unfold core_pair at 1. cbn [node_start node_end fst snd].
+    assert (Hks : str_slice code (blen (pre ++ render_lay ld)%list) (id_end (k_key k) (k_l1 k) (blen (pre ++ render_lay ld)%list))
+                  = Some (key_span_text k)) by (rewrite Hcode1; apply key_slice).
+    rewrite Hks.
+    specialize (IH ((pre ++ render_lay ld) ++ render_core k)%list Hcode2). rewrite blen_app in IH.
+    destruct IH as (res & IH1 & IH2).
+    destruct (k_val k) as [[[le v] lv]|] eqn:Ev.
+    + destruct (text_eqb (key_span_text k) (p_ref_key TP)); [|exists res; split; assumption].
+      eexists. split; [reflexivity|]. cbn [ref_rel node_start node_end]. split; [|split].
+      * repeat (rewrite blen_app || (progress cbn [blen])). cbn [cplen N.ltb N.compare Pos.compare Pos.compare_cont]. lia.
+      * unfold value_end. repeat (rewrite blen_app || (progress cbn [blen])). cbn [cplen N.ltb N.compare Pos.compare Pos.compare_cont]. lia.
+      * eexists. rewrite Hcode1. unfold render_core. rewrite Ev. cbn [render_val]. rewrite <- !app_assoc. cbn [app].
+        rewrite <- !app_assoc. reflexivity.
+    + destruct (text_eqb (key_span_text k) (p_ref_key TP)); exists res; split; assumption.
+Qed.
+
+Definition cores_of (o : option (kvcore * list (lay * kvcore) * lay * lay)) : list (lay * kvcore) :=
+  match o with Some (k1, more, _, _) => (no_lay, k1) :: more | None => [] end.
+
+Definition stmt_stepA (cfg : config) (code pre : list N) (n : qname) (a : sargs) : step :=
+  let nm := render_name n in
+  let pre_paren := (pre ++ nm ++ [33])%list in
+  let pre_pk := (pre_paren ++ 40 :: render_lay (a_l0 a) ++ targ_text (a_targ a))%list in   (* before the key-values *)
+  let pre_msg := (pre_pk ++ kv_text (a_kvs a) ++ [34])%list in
+  match directive_check TP (p_ignore TP) code (blen pre) (p_comment_re TP) with
+  | None => StepPanic
+  | Some true => Skip
+  | Some false =>
+      if negb (macro_of_interest nm cfg) then Skip else
+      match (if cfg_structured cfg
+             then directive_check TP (p_no_kvp TP) code (blen pre_paren) (p_comment_re TP)
+             else Some true) with
+      | None => StepPanic
+      | Some nk =>
+          if cfg_structured cfg && negb nk
+          then match ref_more (cores_of (a_kvs a)) pre_pk with
+               | Some (prev, vt) =>
+                   Emit (mkEntry (blen prev) (fst (line_col_go prev 1 1)) (snd (line_col_go prev 1 1))
+                                 (parse_u32 (trim (p_is_ws TP) vt)) (short_name nm) KStructuredPreExisting None None)
+               | None =>
+                   let sfx := Some (match a_kvs a with Some _ => nth 0 (p_suffixes TP) [] | None => nth 1 (p_suffixes TP) [] end) in
+                   let pfx := Some (fst (p_fmt_prefix TP) ++ p_ref_key TP ++ snd (p_fmt_prefix TP))%list in
+                   match a_targ a with
+                   | Some _ => Emit (mkEntry (blen pre_pk) (fst (line_col_go pre_pk 1 1)) (snd (line_col_go pre_pk 1 1))
+                                             None (short_name nm) KStructuredNew pfx sfx)
+                   | None => Emit (mkEntry (blen pre_paren + 1) (fst (line_col_go pre_paren 1 1))
+                                           (snd (line_col_go pre_paren 1 1) + 1) None (short_name nm) KStructuredNew pfx sfx)
+                   end
+               end
+          else Emit (mkEntry (blen pre_msg)
+                             (fst (line_col_go pre_msg 1 1)) (snd (line_col_go pre_msg 1 1))
+                             (extract_reference TP (render_msg (a_msg a))) (short_name nm) KString None None)
+      end
+  end.
+
+Lemma kv_wf_core k p : kv_wf (core_pair k p).
+Proof. unfold kv_wf, core_pair. cbn [fst snd]. split; [reflexivity|]. destruct (k_val k) as [[[le v] lv]|]; [split; reflexivity|exact I]. Qed.
+
+Lemma kv_wf_more : forall more p, Forall kv_wf (more_pairs more p).
+Proof. induction more as [|[ld k] r IH]; intros p; cbn [more_pairs]; constructor; [apply kv_wf_core|apply IH]. Qed.
+
+Lemma pairs_cores k1 more p : kvs_pairs k1 more p = more_pairs ((no_lay, k1) :: more) p.
+Proof. unfold kvs_pairs. cbn [more_pairs]. change (blen (render_lay no_lay)) with 0. rewrite N.add_0_r. reflexivity. Qed.
+
+Definition pairs_of (o : option (kvcore * list (lay * kvcore) * lay * lay)) (pk : N) : list (ptree * option ptree) :=
+  more_pairs (cores_of o) pk.
+
+Lemma args_kids_canon a p :
+  let pt := p + 1 + blen (render_lay (a_l0 a)) in
+  let pk := pt + targpart_len (a_targ a) in
+  let q := pk + kvpart_len (a_kvs a) in
+  let e := q + 1 + blen (render_msg (a_msg a)) + 1 in
+  args_kids a p =
+  canon_args (match a_targ a with Some (t, _) => Some (targ_node t pt) | None => None end)
+             (pairs_of (a_kvs a) pk) pk
+             (match a_kvs a with Some (k1, more, lsemi, _) => kvs_end k1 more lsemi pk | None => 0 end)
+             q e (Node "string_value" (q + 1) (q + 1 + blen (render_msg (a_msg a))) []).
+Proof.
+  cbv zeta. unfold args_kids, canon_args, pairs_of.
+  destruct (a_targ a) as [[t lt]|]; destruct (a_kvs a) as [[[[k1 more] lsemi] lafter]|]; cbn [cores_of];
+    try rewrite <- pairs_cores; try reflexivity.
+Qed.
+
+Lemma one_macro_stmtA cfg pre n a tail :
+  let code := (pre ++ render_item (IStmtA n a) ++ tail)%list in
+  one_macro TP cfg code (stmtA_node n a (blen pre)) = stmt_stepA cfg code pre n a.
+Proof.
+  intros code. set (nm := render_name n). set (msg := render_msg (a_msg a)).
+  set (pre_paren := (pre ++ nm ++ [33])%list).
+  set (pre_pk := (pre_paren ++ 40 :: render_lay (a_l0 a) ++ targ_text (a_targ a))%list).
+  set (pre_msg := (pre_pk ++ kv_text (a_kvs a) ++ [34])%list).
+  set (m := msg_lit (a_msg a) tail).
+  assert (Hc1 : code = (pre ++ nm ++ (33 :: render_args a tail))%list).
+  { unfold code. rewrite stmtA_app. reflexivity. }
+  assert (Hc2 : code = (pre_paren ++ render_args a tail)%list).
+  { rewrite Hc1. unfold pre_paren. rewrite <- !app_assoc. reflexivity. }
+  assert (Hc3 : code = (pre_pk ++ render_kvpart (a_kvs a) m)%list).
+  { rewrite Hc2. unfold pre_pk, render_args. fold m. rewrite render_targpart_text. rewrite <- !app_assoc. cbn [app].
+    rewrite <- !app_assoc. reflexivity. }
+  assert (Hc4 : code = (pre_msg ++ msg ++ 34 :: tail)%list).
+  { rewrite Hc3. unfold pre_msg. rewrite render_kvpart_text. unfold m, msg_lit. rewrite <- !app_assoc. reflexivity. }
+  set (a0 := blen pre + blen nm + 1).
+  assert (Hp : a0 = blen pre_paren).
+  { unfold a0, pre_paren. rewrite !blen_app. cbn [blen cplen N.ltb N.compare Pos.compare Pos.compare_cont]. lia. }
+  set (pt := a0 + 1 + blen (render_lay (a_l0 a))). set (pk := pt + targpart_len (a_targ a)).
+  set (q := pk + kvpart_len (a_kvs a)).
+  assert (Hpk : pk = blen pre_pk).
+  { unfold pk, pt, pre_pk. rewrite blen_app. cbn [blen]. rewrite blen_app, blen_targ_text, <- Hp.
+    cbn [cplen N.ltb N.compare Pos.compare Pos.compare_cont]. lia. }
+  assert (Hq : q + 1 = blen pre_msg).
+  { unfold q, pre_msg. rewrite !blen_app, blen_kv_text, <- Hpk. cbn [blen cplen N.ltb N.compare Pos.compare Pos.compare_cont]. lia. }
+  unfold stmtA_node, one_macro, stmt_stepA. fold nm msg pre_paren pre_pk pre_msg a0.
+  cbn [node_kids is_rule node_rule node_start node_end String.eqb Ascii.eqb Bool.eqb negb].
+  destruct (directive_check TP (p_ignore TP) code (blen pre) (p_comment_re TP)) as [[|]|]; [reflexivity| |reflexivity].
+  rewrite Hc1 at 1. rewrite (str_slice_mid pre nm). destruct (macro_of_interest nm cfg); [|reflexivity]. cbn [negb].
+  pose proof (args_kids_canon a a0) as Hk. cbv zeta in Hk. fold pt pk q in Hk. rewrite Hk.
+  rewrite scan_args_canon;
+    [|destruct (a_targ a) as [[t lt]|]; [reflexivity|exact I]|apply kv_wf_more].
+  cbn [sc_msg sc_kvs sc_target sc_after_target]. rewrite Hp.
+  destruct (if cfg_structured cfg then directive_check TP (p_no_kvp TP) code (blen pre_paren) (p_comment_re TP) else Some true)
+    as [nk|]; [|reflexivity].
+  destruct (cfg_structured cfg && negb nk).
+  - (* structured *)
+    assert (Hfind : exists res, find_ref_kv TP code (pairs_of (a_kvs a) pk) = Done res /\
+                                ref_rel code (ref_more (cores_of (a_kvs a)) pre_pk) res).
+    { unfold pairs_of. rewrite Hpk.
+      destruct (a_kvs a) as [[[[k1 more] lsemi] lafter]|] eqn:Ek; cbn [cores_of].
+      - apply (find_ref_more code lsemi (render_lay lafter ++ m)%list ((no_lay, k1) :: more) pre_pk).
+        rewrite Hc3. cbn [render_kvpart render_more]. reflexivity.
+      - exists None. split; [reflexivity|exact I]. }
+    destruct Hfind as (res & Hf & Hrel). rewrite Hf.
+    destruct (ref_more (cores_of (a_kvs a)) pre_pk) as [[prev vt]|]; destruct res as [vs|]; cbn [ref_rel] in Hrel; try contradiction.
+    + destruct Hrel as (Hs & He & post & Hcode). rewrite Hs, He.
+      rewrite Hcode at 1. rewrite line_col_prefix. rewrite Hcode. rewrite (str_slice_mid prev vt post).
+      destruct (line_col_go prev 1 1) as [l0 c0]. reflexivity.
+    + destruct (a_targ a) as [[t lt]|] eqn:Et.
+      * assert (Hfa : first_after_target (pairs_of (a_kvs a) pk) pk q = blen pre_pk).
+        { unfold first_after_target, pairs_of, q. destruct (a_kvs a) as [[[[k1 more] lsemi] lafter]|]; cbn [cores_of more_pairs kvpart_len].
+          - exact Hpk.
+          - rewrite N.add_0_r. exact Hpk. }
+        rewrite Hfa. rewrite Hc3 at 1. rewrite line_col_prefix.
+        destruct (line_col_go pre_pk 1 1) as [l0 c0]. cbn [fst snd].
+        unfold pairs_of. destruct (a_kvs a) as [[[[k1 more] lsemi] lafter]|]; reflexivity.
+      * rewrite Hc2 at 1. rewrite line_col_prefix. destruct (line_col_go pre_paren 1 1) as [l0 c0]. cbn [fst snd].
+        unfold pairs_of. destruct (a_kvs a) as [[[[k1 more] lsemi] lafter]|]; reflexivity.
+  - cbn [node_start node_end]. rewrite Hq.
+    rewrite Hc4 at 1. rewrite line_col_prefix. rewrite Hc4. rewrite (str_slice_mid pre_msg msg).
+    destruct (line_col_go pre_msg 1 1) as [l0 c0]. reflexivity.
+Qed.
+
 (* the entries the property texts demand for a canonical file *)
 Definition step_entries (s : step) : list entry := match s with Emit e => [e] | _ => [] end.
 
@@ -560,6 +832,7 @@ Fixpoint expected (cfg : config) (code : list N) (its : list (lay * item)) (pre 
       let pre1 := (pre ++ render_lay l)%list in
       (match it with
        | IStmt n l1 us => step_entries (stmt_step cfg code pre1 n l1 us)
+       | IStmtA n a => step_entries (stmt_stepA cfg code pre1 n a)
        | _ => []
        end ++ expected cfg code r (pre1 ++ render_item it))%list
   end.
@@ -578,11 +851,18 @@ Proof.
     assert (Hcode'' : code = (((pre ++ render_lay l) ++ render_item it) ++ render_items r fin)%list).
     { rewrite Hcode'. rewrite <- !app_assoc. reflexivity. }
     rewrite <- blen_app in H.
-    destruct it as [n l1 us|n|c]; cbn [item_nodes app] in H.
+    destruct it as [n l1 us|n a|n|c]; cbn [item_nodes app] in H.
     + cbn [collect] in H. replace (is_rule (stmt_node n l1 us (blen (pre ++ render_lay l)%list)) "log_macro") with true in H by reflexivity.
       pose proof (one_macro_stmt cfg (pre ++ render_lay l)%list n l1 us (render_items r fin)) as Hone.
       cbv zeta in Hone. rewrite <- Hcode' in Hone. rewrite Hone in H.
       destruct (stmt_step cfg code (pre ++ render_lay l)%list n l1 us) as [|e|]; cbn [step_entries app].
+      * apply (IH _ _ _ Hcode'' H).
+      * rewrite (IH _ _ _ Hcode'' H). cbn [rev]. rewrite <- app_assoc. reflexivity.
+      * discriminate.
+    + cbn [collect] in H. replace (is_rule (stmtA_node n a (blen (pre ++ render_lay l)%list)) "log_macro") with true in H by reflexivity.
+      pose proof (one_macro_stmtA cfg (pre ++ render_lay l)%list n a (render_items r fin)) as Hone.
+      cbv zeta in Hone. rewrite <- Hcode' in Hone. rewrite Hone in H.
+      destruct (stmt_stepA cfg code (pre ++ render_lay l)%list n a) as [|e|]; cbn [step_entries app].
       * apply (IH _ _ _ Hcode'' H).
       * rewrite (IH _ _ _ Hcode'' H). cbn [rev]. rewrite <- app_assoc. reflexivity.
       * discriminate.
@@ -618,14 +898,26 @@ Proof.
   destruct (directive_check TP (p_ignore TP) code (blen pre) (p_comment_re TP)) as [[|]|]; reflexivity.
 Qed.
 
+Lemma stmt_stepA_unconfigured cfg code pre n a :
+  macro_of_interest (render_name n) cfg = false -> step_entries (stmt_stepA cfg code pre n a) = [].
+Proof.
+  intros H. unfold stmt_stepA. rewrite H.
+  destruct (directive_check TP (p_ignore TP) code (blen pre) (p_comment_re TP)) as [[|]|]; reflexivity.
+Qed.
+
+(* the name of a statement item *)
+Definition stmt_name (it : item) : option qname :=
+  match it with IStmt n _ _ => Some n | IStmtA n _ => Some n | _ => None end.
+
 Lemma expected_none cfg code : forall its pre,
-  (forall l n l1 us, In (l, IStmt n l1 us) its -> macro_of_interest (render_name n) cfg = false) ->
+  (forall l it n, In (l, it) its -> stmt_name it = Some n -> macro_of_interest (render_name n) cfg = false) ->
   expected cfg code its pre = [].
 Proof.
   induction its as [|[l it] r IH]; intros pre H; cbn [expected]; [reflexivity|].
-  rewrite IH by (intros; eapply H; right; eauto). rewrite app_nil_r.
-  destruct it as [n l1 us| |]; try reflexivity.
-  apply stmt_step_unconfigured. eapply H. left. reflexivity.
+  rewrite IH by (intros; eapply H; [right|]; eauto). rewrite app_nil_r.
+  destruct it as [n l1 us|n a| |]; try reflexivity.
+  - apply stmt_step_unconfigured. eapply H; [left; reflexivity|reflexivity].
+  - apply stmt_stepA_unconfigured. eapply H; [left; reflexivity|reflexivity].
 Qed.
 
 (* an ignore directive in force: no entry for that statement *)
@@ -634,9 +926,14 @@ Lemma stmt_step_ignored cfg code pre n l us :
   stmt_step cfg code pre n l us = Skip.
 Proof. intros H. unfold stmt_step. rewrite H. reflexivity. Qed.
 
+Lemma stmt_stepA_ignored cfg code pre n a :
+  directive_check TP (p_ignore TP) code (blen pre) (p_comment_re TP) = Some true ->
+  stmt_stepA cfg code pre n a = Skip.
+Proof. intros H. unfold stmt_stepA. rewrite H. reflexivity. Qed.
+
 Theorem find_canonical_none cfg its fin :
   items_ok its fin ->
-  (forall l n l1 us, In (l, IStmt n l1 us) its -> macro_of_interest (render_name n) cfg = false) ->
+  (forall l it n, In (l, it) its -> stmt_name it = Some n -> macro_of_interest (render_name n) cfg = false) ->
   find cfg (render_items its fin) = Done [].
 Proof.
   intros Hok Hnone. pose proof (find_canonical cfg its fin Hok) as H. cbv zeta in H.
@@ -648,10 +945,84 @@ Theorem find_canonical_only_statements cfg its fin :
   let code := render_items its fin in
   find cfg code = Done (expected cfg code its []) /\
   (forall pre n l us, macro_of_interest (render_name n) cfg = false -> step_entries (stmt_step cfg code pre n l us) = []) /\
+  (forall pre n a, macro_of_interest (render_name n) cfg = false -> step_entries (stmt_stepA cfg code pre n a) = []) /\
   (forall pre n l us, directive_check TP (p_ignore TP) code (blen pre) (p_comment_re TP) = Some true ->
-                      stmt_step cfg code pre n l us = Skip).
+                      stmt_step cfg code pre n l us = Skip) /\
+  (forall pre n a, directive_check TP (p_ignore TP) code (blen pre) (p_comment_re TP) = Some true ->
+                   stmt_stepA cfg code pre n a = Skip).
 Proof.
-  intros Hok code. split; [exact (find_canonical cfg its fin Hok)|]. split.
-  - intros. apply stmt_step_unconfigured. assumption.
-  - intros. apply stmt_step_ignored. assumption.
+  intros Hok code. split; [exact (find_canonical cfg its fin Hok)|]. repeat split; intros.
+  - apply stmt_step_unconfigured. assumption.
+  - apply stmt_stepA_unconfigured. assumption.
+  - apply stmt_step_ignored. assumption.
+  - apply stmt_stepA_ignored. assumption.
+Qed.
+
+(* structured style, statement not ignored and not under a no-kvp directive: spelled out *)
+Theorem stmt_stepA_structured cfg code pre n a :
+  let nm := render_name n in
+  let pre_paren := (pre ++ nm ++ [33])%list in
+  let pre_pk := (pre_paren ++ 40 :: render_lay (a_l0 a) ++ targ_text (a_targ a))%list in
+  cfg_structured cfg = true -> macro_of_interest nm cfg = true ->
+  directive_check TP (p_ignore TP) code (blen pre) (p_comment_re TP) = Some false ->
+  directive_check TP (p_no_kvp TP) code (blen pre_paren) (p_comment_re TP) = Some false ->
+  stmt_stepA cfg code pre n a =
+  match ref_more (cores_of (a_kvs a)) pre_pk with
+  | Some (prev, vt) =>
+      (* the first key-value with key `ref` and a value: the entry is AT that value, whose text, trimmed,
+         is read as the reference (None = not an integer: unusable, never "missing") *)
+      Emit (mkEntry (blen prev) (fst (line_col_go prev 1 1)) (snd (line_col_go prev 1 1))
+                    (parse_u32 (trim (p_is_ws TP) vt)) (short_name nm) KStructuredPreExisting None None)
+  | None =>
+      let sfx := Some (match a_kvs a with Some _ => nth 0 (p_suffixes TP) [] | None => nth 1 (p_suffixes TP) [] end) in
+      let pfx := Some (fst (p_fmt_prefix TP) ++ p_ref_key TP ++ snd (p_fmt_prefix TP))%list in
+      match a_targ a with
+      | Some _ => Emit (mkEntry (blen pre_pk) (fst (line_col_go pre_pk 1 1)) (snd (line_col_go pre_pk 1 1))
+                                None (short_name nm) KStructuredNew pfx sfx)
+      | None => Emit (mkEntry (blen pre_paren + 1) (fst (line_col_go pre_paren 1 1))
+                              (snd (line_col_go pre_paren 1 1) + 1) None (short_name nm) KStructuredNew pfx sfx)
+      end
+  end.
+Proof.
+  intros nm pre_paren pre_pk Hs Hm Hi Hn. unfold stmt_stepA. fold nm pre_paren pre_pk.
+  rewrite Hi, Hm, Hs, Hn. reflexivity.
+Qed.
+
+(* message style, or a no-kvp directive: the entry is at the first character of the message value
+   whatever target and key-values precede it *)
+Theorem stmt_stepA_message cfg code pre n a :
+  let nm := render_name n in
+  let pre_paren := (pre ++ nm ++ [33])%list in
+  let pre_msg := (pre_paren ++ 40 :: render_lay (a_l0 a) ++ targ_text (a_targ a) ++ kv_text (a_kvs a) ++ [34])%list in
+  (cfg_structured cfg = false \/
+   directive_check TP (p_no_kvp TP) code (blen pre_paren) (p_comment_re TP) = Some true) ->
+  macro_of_interest nm cfg = true ->
+  directive_check TP (p_ignore TP) code (blen pre) (p_comment_re TP) = Some false ->
+  stmt_stepA cfg code pre n a =
+  Emit (mkEntry (blen pre_msg) (fst (line_col_go pre_msg 1 1)) (snd (line_col_go pre_msg 1 1))
+                (extract_reference TP (render_msg (a_msg a))) (short_name nm) KString None None).
+Proof.
+  intros nm pre_paren pre_msg Hmode Hm Hi. unfold stmt_stepA. fold nm pre_paren.
+  rewrite Hi, Hm. cbn [negb].
+  assert (Hpm : ((pre_paren ++ 40 :: render_lay (a_l0 a) ++ targ_text (a_targ a)) ++ kv_text (a_kvs a) ++ [34])%list = pre_msg).
+  { unfold pre_msg. rewrite <- !app_assoc. cbn [app]. rewrite <- !app_assoc. reflexivity. }
+  destruct Hmode as [Hs|Hd].
+  - rewrite Hs. cbn [andb]. rewrite Hpm. reflexivity.
+  - destruct (cfg_structured cfg); [rewrite Hd|]; cbn [negb andb]; rewrite Hpm; reflexivity.
+Qed.
+
+(* the key `ref` is recognised by the key's own text: the layout pest leaves inside the span of a
+   one-character key never makes a difference *)
+Lemma key_is_ref k tail :
+  lay_ok (k_l1 k) tail ->
+  text_eqb (key_span_text k) (p_ref_key TP) = text_eqb (render_ident (k_key k)) (p_ref_key TP).
+Proof.
+  intros [Hw Hg]. unfold key_span_text. destruct (ics (k_key k)) as [|c cs] eqn:E; [|rewrite app_nil_r; reflexivity].
+  unfold render_ident. rewrite E. change (p_ref_key TP) with [114; 101; 102].
+  cbn [app text_eqb]. destruct (i0 (k_key k) =? 114); [|reflexivity]. cbn [andb].
+  unfold render_lay. destruct (fst (k_l1 k)) as [|w ws].
+  - cbn [app]. destruct (snd (k_l1 k)) as [|[cm ws'] r]; [reflexivity|]. cbn [render_groups].
+    destruct cm; reflexivity.
+  - cbn [app forallb] in *. apply andb_true_iff in Hw. destruct Hw as [Hw _].
+    cbn [text_eqb]. destruct (N.eqb_spec w 101) as [->|]; [vm_compute in Hw; discriminate|reflexivity].
 Qed.
